@@ -189,6 +189,18 @@ def run_case_task(task):
             out['status'] = 'vacuous'
             out['detail'] = 'no feasible path'
         # anything not proved (or out of subset): directed search on the real code
+        ncross = int(opts.get('crosscheck', 0))
+        if early is None and not failing and unsupported is None and out['status'] == 'ok' and ncross > 0:
+            # CPython cross-check of the symbolic semantics (DESIGN 2.6): every obligation of this case was proved, so
+            # the real function and the contract must also agree natively on random pre-states of the same family.
+            # A disagreement here means the engine's model of Python/numpy is wrong (or the proof relied on fp = reals
+            # where rounding matters): it is reported with its input like any other violation.
+            w, tried = replay.search(c, build, None, n_random=ncross, seed=int(opts.get('seed', 0)) + 7919, ignore=ign,
+                                     only=only, post_body=copts.get('post_body'))
+            out['crosscheck_trials'] = tried
+            if w is not None:
+                early = w
+                failing = [('native cross-check (all symbolic obligations proved)', 'refuted', None, 'the real function and the contract disagree on a concrete input', '')]
         if early is not None:
             out['violation'] = {'witness': early, 'failing': [(f[0], f[1], f[3], f[4]) for f in failing[:8]]}
             out['detail'] = 'stopped at the first obligation refuted on the real code'
@@ -251,9 +263,11 @@ def _assumptions_sat(assumptions):
         if r is None:
             s = z3.Solver()
             s.set('timeout', 5000)
+            s.set('rlimit', 20000000)        # deterministic resource cap (the time-out is not honoured inside nlsat preprocessing)
             for a in g:
                 s.add(a)
-            r = s.check() != z3.unsat
+            from .sym import forked_check
+            r = forked_check(s, 6.0) != 'unsat'
             _SAT_CACHE[key] = r
             _SAT_CACHE[('keep', key)] = g
         if not r:
